@@ -261,7 +261,14 @@ func VH_C10_Wrapped() {
 	tag := ""
 	e := New()
 	e.RegisterString("inc", "I")
-	e.RegisterString("l0", "<{% block a %}a0{{ x }}{% endblock %}>")
+	viaParse := symBool()
+	if viaParse {
+		symTag("ParseTemplate+RegisterTemplate")
+		t0, _ := e.ParseTemplate("<{% block a %}a0{{ x }}{% endblock %}>")
+		e.RegisterTemplate("l0", t0)
+	} else {
+		e.RegisterString("l0", "<{% block a %}a0{{ x }}{% endblock %}>")
+	}
 	names := []string{"l0", "l1", "l2", "l3"}
 	for l := 1; l <= depth; l++ {
 		k := vhC10WKinds[symChoice(len(vhC10WKinds))]
@@ -271,7 +278,15 @@ func VH_C10_Wrapped() {
 		if k != "-" {
 			src += "{% block a %}" + vhC10WBody(k, "a"+[]string{"0", "1", "2", "3"}[l]) + "{% endblock %}"
 		}
-		if e.RegisterString(names[l], src) != nil {
+		// either way of putting a template under a name
+		if viaParse {
+			t, perr := e.ParseTemplate(src)
+			if perr != nil {
+				symAssert(false, "template-parses")
+				return
+			}
+			e.RegisterTemplate(names[l], t)
+		} else if e.RegisterString(names[l], src) != nil {
 			symAssert(false, "template-parses")
 			return
 		}
